@@ -207,7 +207,32 @@ def convert_flows(F):
                 if not v:
                     r.violate("%s | ImportedFunction.%s" % (fn["path"], k), F.loc(fn, s), "the new ImportedFunction's %s does not come from %s" % (k, {"import_id": "the add_import result", "import_fn_id": "the caller's function_id", "ty_id": "the caller's ty_id"}[k]))
     if not found:
-        raise CheckError("convert_local_fn_to_import_with_tag: ImportedFunction literal not found")
+        # built through the constructor: map the arguments to the fields the constructor stores them in
+        for c in walk(fn["body"]):
+            if c.get("k") == "Call" and (c.get("callee") or "").endswith("ImportedFunction::new") and (c.get("callee") or "") in F.by_path:
+                ctor = F.by_path[c["callee"]][0]
+                lit = next((x for x in walk(ctor.get("body") or {}) if x.get("k") == "Struct" and (x.get("adt") or "").endswith("ImportedFunction") and "rest" not in x), None)
+                if lit is None or len(ctor.get("params", [])) != len(c["args"]):
+                    continue
+                by_param = {pm["pat"].get("hid"): peel(a_) for pm, a_ in zip(ctor["params"], c["args"])}
+                fs = {}
+                for a, b in lit["fields"]:
+                    v_ = peel(b)
+                    if v_.get("k") == "Path" and v_.get("res", {}).get("hid") in by_param:
+                        fs[a] = by_param[v_["res"]["hid"]]
+                if set(fs) >= {"import_id", "import_fn_id", "ty_id"}:
+                    found = True
+                    checks = {
+                        "import_id": fs["import_id"].get("res", {}).get("hid") in add_imp_hids,
+                        "import_fn_id": fs["import_fn_id"].get("res", {}).get("hid") == ph.get("function_id"),
+                        "ty_id": fs["ty_id"].get("res", {}).get("hid") == ph.get("ty_id"),
+                    }
+                    for k, v in checks.items():
+                        r.ob(v, {"ImportedFunction." + k: v})
+                        if not v:
+                            r.violate("%s | ImportedFunction.%s" % (fn["path"], k), F.loc(fn, c), "the new ImportedFunction's %s does not come from %s" % (k, {"import_id": "the add_import result", "import_fn_id": "the caller's function_id", "ty_id": "the caller's ty_id"}[k]))
+    if not found:
+        r.undecided("convert_local_fn_to_import_with_tag: how the ImportedFunction is built was not recognised")
     okt = False
     # wherever the Import literal is built (here, in add_import, or in a constructor helper), the TypeRef handed over by
     # this function is `TypeRef::Func(<the caller's ty_id>)`
@@ -621,7 +646,29 @@ def additions(F):
     if not ok:
         r.violate("%s | writes" % fn["path"], F.loc(fn), "mod_global_init_expr writes something other than exactly the init_expr of the addressed global")
     ok = any(x.get("k") == "MethodCall" and x["method"] == "get_mut" and peel(x["args"][0]).get("k") in ("Cast", "Path") for x in walk(fn["body"]))
-    r.ob(ok)
+    # a GlobalID is a position in the vector (deleted globals keep their slot until encoding): looking the id up in a
+    # filtered / skipped / reversed view of the vector (`iter_mut().filter(|g| !g.deleted).nth(id)`) addresses another global
+    # as soon as an earlier one was deleted
+    filtered = None
+    for x in walk(fn["body"]):
+        if x.get("k") == "MethodCall" and x["method"] in ("nth", "position", "find", "skip"):
+            chain, cur = [], peel(x["recv"])
+            if cur.get("k") == "Path" and cur.get("res", {}).get("r") == "local":
+                _p, init_, _k = binding_site(fn["body"], cur["res"]["hid"])
+                cur = peel(init_) if isinstance(init_, dict) else cur
+            while isinstance(cur, dict) and cur.get("k") == "MethodCall":
+                chain.append(cur["method"])
+                cur = peel(cur["recv"])
+            if x["method"] == "nth" and any(m_ in chain for m_ in ("filter", "filter_map", "skip", "skip_while", "rev", "take_while")):
+                filtered = x
+    if filtered is not None:
+        r.ob(False, {"mod_global_init_expr": "id looked up in a filtered view"})
+        r.violate("%s | id looked up in a filtered view" % fn["path"], F.loc(fn, filtered),
+                  "mod_global_init_expr finds the global with `.nth(id)` on a filtered/skipped view of the vector: ids are positions in the unfiltered vector, so after any deletion the initialiser of a different global is rewritten")
+    elif not ok:
+        r.undecided("mod_global_init_expr: how the addressed global is looked up was not recognised")
+    else:
+        r.ob(True)
     for nm, kind in (("add_export_func", "Func"), ("add_export_mem", "Memory")):
         fn = F.one_fn(name=nm, self_adt="ModuleExports")
         r.analysed.append(fn["path"])
@@ -881,6 +928,66 @@ def resolver_details(F):
     r.ob(okc)
     if not okc:
         r.violate("%s | delete_block clear" % rs["path"], F.loc(rs), "delete_block is cleared without comparing the popped block id with it")
+    # an `end` met while a block is being deleted that is NOT the end of that block (a construct nested in the deleted region)
+    # is always removed and its instrumentation skipped — whatever retain_end says (that flag is about the deleted block's own
+    # end): case analysis of the End arm under "delete_block is Some(d), d != popped id"
+    end_arm = None
+    for m_ in walk(rs["body"]):
+        if m_.get("k") == "Match" and "Operator" in (m_.get("scrut_ty") or ""):
+            for a_ in m_["arms"]:
+                if {v for _, v in pat_variants(a_["pat"])[0]} == {"End"} and peel(a_["body"]).get("k") != "Lit":
+                    end_arm = a_
+    if end_arm is not None:
+        def cl_end(n):
+            if n.get("k") == "MethodCall" and n["method"] == "empty_alternate_at":
+                return "EMPTY"
+            if n.get("k") == "MethodCall" and n["method"] == "remove" and "resolve_on" in (place_path(n["recv"]) or ""):
+                return "RESOLVE"
+            return None
+
+        def dec_end(n):
+            c_ = peel(n["cond"])
+            if c_.get("k") == "LetExpr":
+                nm_ = {x["res"].get("name") for x in walk(c_["init"]) if x.get("k") == "Path" and x.get("res", {}).get("r") == "local"}
+                if "delete_block" in nm_ and c_["pat"].get("variant") == "Some":
+                    return True
+                if any(x.get("k") == "MethodCall" and x["method"] == "pop" for x in walk(c_["init"])):
+                    return True
+                return None
+            if cmp_with_popped(c_):
+                neg = c_.get("k") == "Unary" and c_.get("op") == "!"
+                return True if neg else False
+            return None
+
+        def sel_end(m_):
+            sc = peel(m_.get("scrut") or {})
+            if sc.get("k") == "Path" and sc.get("res", {}).get("name") == "delete_block":
+                out = []
+                for i, a_ in enumerate(m_["arms"]):
+                    if a_["pat"].get("variant") == "None":
+                        continue
+                    if "guard" in a_ and cmp_with_popped(a_["guard"]):
+                        continue        # the arm for d == popped id
+                    out.append(i)
+                    if a_["pat"].get("variant") == "Some" and "guard" not in a_:
+                        break
+                return out
+            return None
+        evs_ = set()
+        recognised = False
+        for ev, st_ in paths(end_arm["body"], cl_end, decide_if=dec_end, select_arms=sel_end):
+            if st_ in ("fall", "cont"):
+                evs_.add((ev, st_))
+        tested = any(cmp_with_popped(x) for x in walk(end_arm["body"]) if x.get("k") in ("If",) for x in [x["cond"]]) or \
+            any("guard" in a_ and cmp_with_popped(a_["guard"]) for m_ in walk(end_arm["body"]) if m_.get("k") == "Match" for a_ in m_["arms"])
+        if not tested:
+            r.undecided("End arm: the comparison of the popped block id with delete_block was not found; the nested-end clause was not analysed")
+        else:
+            bad_ = sorted(ev for ev, st_ in evs_ if not (st_ == "cont" and "EMPTY" in ev and "RESOLVE" not in ev))
+            r.ob(not bad_, {"nested end inside a deleted block": "always removed and skipped" if not bad_ else "kept on some path", "paths": len(evs_)})
+            if bad_:
+                r.violate("%s | nested end kept" % rs["path"], F.loc(rs, end_arm),
+                          "while a block is being deleted, an `end` that closes a construct nested inside it is not removed on every path (events %s): the opener and body of that construct are deleted but its `end` survives, leaving an unbalanced body" % (list(bad_[0]),))
     # every arm of the driver match empties instructions while deleting
     from rules.special import op_matches, arm_ops
     for m in op_matches(rs):
@@ -1070,6 +1177,33 @@ def scoped_pending(F, parts=("containers",)):
             r.ob(ok, {"container": name, "drained_at_end_unconditionally": ok})
             if not ok:
                 r.violate("%s | %s drain" % (rs["path"], name), F.loc(rs, arm), "at a block's `end`, pending container `%s` %s: bodies waiting there for this block are silently never emitted" % (name, why))
+    # the driver visits every instruction: a `break` out of the per-instruction loop is sound only where nothing at all is
+    # pending any more — its guard has to look at every pending container (a body waiting in one it forgot is never emitted)
+    if "containers" in parts:
+        from vlib.facts import path_to as _pt
+        for lp in walk(rs["body"]):
+            if not (lp.get("k") == "Match" and lp.get("src") == "ForLoopDesugar"):
+                continue
+            if not any(m_.get("k") == "Match" and "Operator" in (m_.get("scrut_ty") or "") and any({v for _, v in pat_variants(a_["pat"])[0]} == {"End"} for a_ in m_["arms"]) for m_ in walk(lp)):
+                continue
+            inner_loops = [x for x in walk(lp["arms"][0]["body"]) if x.get("k") == "Loop"]
+            outer = inner_loops[0] if inner_loops else None
+            for br in walk(lp):
+                if br.get("k") != "Break" or outer is None or br.get("from_desugar"):
+                    continue
+                pth = _pt(outer, br) or []
+                if sum(1 for n_, _ in pth if isinstance(n_, dict) and n_.get("k") == "Loop") > 1:
+                    continue        # belongs to a nested loop
+                # the desugaring's own `None => break` has no condition ancestors besides the iterator match
+                conds_ = [c for pol, c in guard_conditions(outer, br) if pol in (True, False)]
+                if not conds_:
+                    continue
+                mentioned = {x["res"].get("name") for c in conds_ for x in walk(c) if x.get("k") == "Path" and x.get("res", {}).get("r") == "local"}
+                missing = sorted(set(conts) - mentioned)
+                r.ob(not missing, {"early break of the driver loop looks at": sorted(mentioned & set(conts)), "ignores": missing})
+                if missing:
+                    r.violate("%s | early break ignores %s" % (rs["path"], "+".join(missing)), F.loc(rs, br),
+                              "the resolver leaves its per-instruction loop early without checking pending container(s) %s: bodies still waiting there (e.g. an if's block-exit probe waiting for the else/end) are never emitted" % missing)
     # at `Else` the bodies waiting for the if's else are drained before anything in the arm can `continue` (an else that is
     # replaced by a block alt still ends the then-arm: its exit probe belongs where the else stood)
     if "containers" in parts:
